@@ -120,6 +120,7 @@ pub fn run_case_with(i: u64, rng: &mut Rng, rep: &mut Report, verbose: bool, for
         spec: gen::gen_search(rng, i),
     };
     let final_extra_ctl = rng.bool();
+    let omit_last_control = rng.chance(1, 6);
     // result codes per page: a server may cut a paged search short (size/time/admin limit) or report a
     // non-zero code on any page; the cookie alone decides whether there is another page
     let page_rc: Vec<u32> = (0..pages.len()).map(|k| if rng.chance(1, if k + 1 == pages.len() { 5 } else { 12 }) { *rng.pick(&[3u32, 4, 11, 10, 53]) } else { 0 }).collect();
@@ -188,7 +189,11 @@ pub fn run_case_with(i: u64, rng: &mut Rng, rep: &mut Report, verbose: bool, for
                         }
                         // servers may spell the criticality out (FALSE, or TRUE in any non-zero octet) in their response control
                         let crit = match srng.below(4) { 0 => CritEnc::False, 1 => CritEnc::True(*srng.pick(&[0xffu8, 0x01])), _ => CritEnc::Absent };
-                        ctls.push(RespCtl { oid: PAGED_OID.into(), crit, val: Some(paged_value(srng.below(1000) as i64, &p.cookie)) });
+                        // the last page may come without the response control at all (a server that ends the paged search its
+                        // own way, or ignores the non-critical request control on a result that fits one page)
+                        if !(omit_last_control && p.cookie.is_empty()) {
+                            ctls.push(RespCtl { oid: PAGED_OID.into(), crit, val: Some(paged_value(srng.below(1000) as i64, &p.cookie)) });
+                        }
                         if final_extra_ctl && srng.bool() {
                             ctls.push(RespCtl { oid: "1.2.3.4.6".into(), crit: CritEnc::Absent, val: None });
                         }
@@ -427,6 +432,25 @@ pub fn replay(ctx: &Ctx, v: &Value) -> Report {
     if let Some(i) = v["case"].as_u64() {
         let mut rng = case_rng(ctx.seed, "paging", i);
         run_case(i, &mut rng, &mut rep, true);
+    }
+    rep
+}
+
+
+/// The paging conversation through the synchronous front-end.  `LdapConn::streaming_search_with` must
+/// hand the caller's controls, options and timeout to the adapter chain exactly as the async call
+/// does: C14's differential scripts (which include paged searches with modifiers, alone and behind
+/// EntriesOnly) run here, and any difference on the wire or in the results is reported under C16.
+pub fn sync_front_end(ctx: &Ctx) -> Report {
+    let mut rep = crate::lanes::c14::differential(ctx);
+    let old = std::mem::take(&mut rep.violations);
+    for (sig, mut v) in old {
+        let renamed = match sig.strip_prefix("C14:") {
+            Some(rest) => format!("C16:sync-front-end:{}", rest),
+            None => sig,
+        };
+        v.signature = renamed.clone();
+        rep.violations.insert(renamed, v);
     }
     rep
 }
